@@ -21,6 +21,18 @@ CHECKS = {
         ],
         **tiers(20000, 200000),
     },
+    "C02": {
+        "pkg": "./checks/c02",
+        "level": "exploration",
+        "assumptions": [
+            "programs come from the tgen grammar (harness/tgen): its Go expression language is a small typed one so that the reference interpreter is exact; constructs outside it are not covered",
+            "a template that templ generate rejects (parse, generate or gofmt error) is outside the statement's domain; rejections are counted as generator health",
+            "whitespace oracle = the statement's: none invented (output whitespace only where the source has some), separation kept between adjacent inline content (sibling tier and across control-flow joints); pairs across comments, raw Go, calls, block elements and loop iterations are don't-care",
+            "inline element = inline both in HTML and in templ's classification (conservative list)",
+        ],
+        "quick": {"timeout": 900, "runs": [{"run": "^TestPropCompiles$", "rapid_checks": 250}, {"run": "^TestPropRenders$", "rapid_checks": 12}]},
+        "thorough": {"timeout": 3400, "shards": 12, "runs": [{"run": "^TestPropCompiles$", "rapid_checks": 2500}, {"run": "^TestPropRenders$", "rapid_checks": 50}]},
+    },
     "C03": {
         "pkg": "./checks/c03",
         "level": "exploration",
